@@ -668,9 +668,45 @@ pub fn token_alphabet_streams(r: &mut Rng, full: bool, part: u64, parts: u64) ->
 
 /// one block (fixed, or dynamic with a random complete code) holding exactly `toks`
 pub fn encode_tokens(r: &mut Rng, toks: &[crate::gen::Tk], dynamic: bool) -> Vec<u8> {
+    let mut w = crate::gen::BitW::new();
+    write_token_block(&mut w, r, toks, dynamic, true);
+    w.pad(0);
+    w.out
+}
+
+/// a block of a multi-block stream
+pub enum Blk {
+    Tokens(Vec<crate::gen::Tk>, bool),
+    Stored(Vec<u8>),
+}
+
+/// several blocks in a row (the last one final); stored blocks up to 65535 bytes
+pub fn encode_blocks(r: &mut Rng, blocks: &[Blk]) -> Vec<u8> {
+    let mut w = crate::gen::BitW::new();
+    for (i, b) in blocks.iter().enumerate() {
+        let last = i + 1 == blocks.len();
+        match b {
+            Blk::Tokens(t, dynamic) => write_token_block(&mut w, r, t, *dynamic, last),
+            Blk::Stored(data) => {
+                assert!(data.len() <= 65535);
+                w.bits(last as u32, 1);
+                w.bits(0, 2);
+                w.pad(0);
+                w.bits(data.len() as u32, 16);
+                w.bits(!(data.len() as u32) & 0xffff, 16);
+                for &x in data {
+                    w.bits(x as u32, 8);
+                }
+            }
+        }
+    }
+    w.pad(0);
+    w.out
+}
+
+fn write_token_block(w: &mut crate::gen::BitW, r: &mut Rng, toks: &[crate::gen::Tk], dynamic: bool, last: bool) {
     use crate::gen::*;
-    let mut w = BitW::new();
-    w.bits(1, 1);
+    w.bits(last as u32, 1);
     let (ll, dl) = if dynamic {
         let mut must_ll = vec![256usize];
         let mut must_d = Vec::new();
@@ -736,9 +772,95 @@ pub fn encode_tokens(r: &mut Rng, toks: &[crate::gen::Tk], dynamic: bool) -> Vec
         }
     }
     w.code(llc[256], ll[256] as u32);
-    w.pad(0);
-    w.out
 }
+
+/// long stored blocks between Huffman blocks that contain matches: a stored block is fed to the hash
+/// chains byte by byte like everything else, and a block of 32..64 KiB carries the chain positions
+/// across one or two reshift thresholds and the whole window in one go. Layout: a Huffman block with
+/// short- and long-distance matches, 1..3 stored blocks (lengths around the window sizes, the reshift
+/// period and the 65535 maximum), then a Huffman block whose matches point into the stored data, at
+/// its start, its end, and (where the window allows) in front of it.
+pub fn stored_long_streams(r: &mut Rng, thorough: bool) -> Vec<(Vec<u8>, String)> {
+    use crate::gen::*;
+    let mut out = Vec::new();
+    let lens: Vec<Vec<usize>> = if thorough {
+        vec![vec![600], vec![5000], vec![32768], vec![33000], vec![65535], vec![65535, 65535], vec![65535, 1], vec![40000, 30000],
+             vec![0x7e00], vec![0xfe00], vec![0xfe08], vec![65535, 65535, 65535], vec![1, 65535], vec![32767, 32769]]
+    } else {
+        vec![vec![600], vec![33000], vec![65535], vec![65535, 65535], vec![40000, 30000]]
+    };
+    for (li, ls) in lens.iter().enumerate() {
+        for variant in 0..(if thorough { 6 } else { 3 }) {
+            let mut p: Vec<u8> = Vec::new();
+            let mut blocks: Vec<Blk> = Vec::new();
+            let push_ref = |p: &mut Vec<u8>, toks: &mut Vec<Tk>, len: usize, dist: usize| {
+                let st = p.len() - dist;
+                for i in 0..len {
+                    let b = p[st + i];
+                    p.push(b);
+                }
+                toks.push(Tk::Ref { len: len as u32, dist: dist as u32, irregular: false });
+            };
+            // block A: some text, a short-distance match, optionally a far one
+            let pre = if variant % 3 == 0 { 40 } else if variant % 3 == 1 { 3000 } else { 36000 };
+            let a = plain_sized(r, pre);
+            let mut toks: Vec<Tk> = Vec::new();
+            for &b in &a {
+                p.push(b);
+                toks.push(Tk::Lit(b));
+            }
+            while p.len() < 8 {
+                p.push(b'a' + (p.len() % 5) as u8);
+                toks.push(Tk::Lit(*p.last().unwrap()));
+            }
+            push_ref(&mut p, &mut toks, 3 + (variant % 4), 3);
+            if p.len() > 2000 && variant % 2 == 1 {
+                let d = p.len() - 7;
+                push_ref(&mut p, &mut toks, 20, d.min(32768));
+            }
+            blocks.push(Blk::Tokens(toks, variant % 2 == 1));
+            // stored blocks
+            let stored_start = p.len();
+            for &l in ls {
+                let data: Vec<u8> = if variant >= 3 { plain_sized(r, l).into_iter().chain(std::iter::repeat(b'q')).take(l).collect() }
+                                    else { (0..l).map(|_| r.below(256) as u8).collect() };
+                p.extend_from_slice(&data);
+                blocks.push(Blk::Stored(data));
+            }
+            let stored_end = p.len();
+            // block C: matches into the stored data and around it
+            let mut toks: Vec<Tk> = Vec::new();
+            // half of the variants keep every distance short, so that the estimated window is the
+            // smallest one and a long stored block is many windows long
+            let near_only = variant % 2 == 0;
+            let mut cands: Vec<usize> = vec![3, 258.min(stored_end - stored_start).max(3), 5, 100.min(p.len())];
+            if !near_only {
+                cands.push((stored_end - stored_start).min(32768));
+                if stored_end - stored_start + 5 <= 32768 {
+                    cands.push(stored_end - stored_start + 5); // in front of the stored data
+                }
+                cands.push(32768.min(p.len()));
+                cands.push(32507.min(p.len()));
+            }
+            for (k, &d) in cands.iter().enumerate() {
+                let d = d.max(1).min(p.len());
+                let len = [3usize, 4, 11, 258, 100][k % 5].min(258);
+                push_ref(&mut p, &mut toks, len, d);
+                let b = b'A' + (k as u8);
+                p.push(b);
+                toks.push(Tk::Lit(b));
+            }
+            for &b in &plain_sized(r, 200) {
+                p.push(b);
+                toks.push(Tk::Lit(b));
+            }
+            blocks.push(Blk::Tokens(toks, variant % 2 == 0));
+            out.push((encode_blocks(r, &blocks), format!("stored-long lens={:?} variant={variant} family={li}", ls)));
+        }
+    }
+    out
+}
+
 
 /// streams whose long matches start at positions where the predictor's position arithmetic changes
 /// regime: around the hash-chain reshift threshold (internal position 0xfe08, first reached at
